@@ -77,8 +77,9 @@ var verifC10PackSum = []byte{0xbb, 1, 2, 3, 4, 5, 6, 7, 8, 9, 10, 11, 12, 13, 14
 
 // VerifC10Entries draws n entries: object ids fully symbolic except for the
 // first byte (see above); pairwise distinct, non-zero ids; pairwise distinct
-// offsets below 2^63; arbitrary CRCs. big=false restricts offsets to < 2^31.
-func VerifC10Entries(n int, big bool) []VerifC10Entry {
+// offsets below 2^63; arbitrary CRCs. Only the first big entries (in the order
+// they are added to the Writer) may have offsets >= 2^31.
+func VerifC10Entries(n int, big int) []VerifC10Entry {
 	es := make([]VerifC10Entry, n)
 	for i := range es {
 		h := verifrt.NondetBytes(20)
@@ -86,7 +87,7 @@ func VerifC10Entries(n int, big bool) []VerifC10Entry {
 		id, _ := plumbing.FromBytes(h)
 		es[i] = VerifC10Entry{H: h, ID: id, Off: verifrt.NondetUint64(), CRC: verifrt.NondetUint32()}
 		verifrt.Assume(es[i].Off < 1<<63)
-		if !big {
+		if i >= big {
 			verifrt.Assume(es[i].Off < 1<<31)
 		}
 		nz := false
@@ -260,15 +261,15 @@ func VerifC10Probe() []byte {
 	return p
 }
 
-// verifC10Prefix draws a prefix of 1..PL bytes, first byte as for probes.
+// verifC10Prefix draws a prefix of PLMIN..PL bytes, first byte as for probes.
 func verifC10Prefix() []byte {
-	return VerifC10Probe()[:verifrt.Range(1, verifrt.Param("PL"))]
+	return VerifC10Probe()[:verifrt.Range(verifrt.Param("PLMIN"), verifrt.Param("PL"))]
 }
 
 // VerifC10NewWorld draws NMIN..N entries and builds the files.
 func VerifC10NewWorld() *VerifC10World {
 	n := verifrt.Range(verifrt.Param("NMIN"), verifrt.Param("N"))
-	return VerifC10Build(VerifC10Entries(n, verifrt.Param("BIG") != 0))
+	return VerifC10Build(VerifC10Entries(n, verifrt.Param("BIG")))
 }
 
 // decoded returns Decode(Encode(W)); the decoder accepts exactly the indexes
@@ -600,7 +601,7 @@ func VerifHarness_C10_bucket_mem() {
 		}
 		return
 	}
-	prefix := verifC10BucketProbe()[:verifrt.Range(1, verifrt.Param("PL"))]
+	prefix := verifC10BucketProbe()[:verifrt.Range(verifrt.Param("PLMIN"), verifrt.Param("PL"))]
 	it, err := m.EntriesWithPrefix(prefix)
 	verifrt.Assert(err == nil, "c10-bucket-mem-prefix-no-error")
 	verifC10BucketIter(it, names, prefix, "bucket-mem")
@@ -690,7 +691,7 @@ func VerifHarness_C10_bucket_lazy() {
 		}
 		return
 	}
-	prefix := verifC10BucketProbe()[:verifrt.Range(1, verifrt.Param("PL"))]
+	prefix := verifC10BucketProbe()[:verifrt.Range(verifrt.Param("PLMIN"), verifrt.Param("PL"))]
 	it, err := l.EntriesWithPrefix(prefix)
 	verifrt.Assert(err == nil, "c10-bucket-lazy-prefix-no-error")
 	verifC10BucketIter(it, names, prefix, "bucket-lazy")
@@ -813,7 +814,7 @@ func (w *VerifC10World) VerifC10EscapeOracle(v uint32, slots int, got uint64, er
 // (a Go panic is a violation).
 func VerifHarness_C10_escape() {
 	n := verifrt.Range(verifrt.Param("NMIN"), verifrt.Param("N"))
-	w := VerifC10Build(VerifC10Entries(n, true))
+	w := VerifC10Build(VerifC10Entries(n, n))
 	id, v, slots := w.VerifC10Corrupt()
 	h := verifC10ID(id)
 	verifrt.Reach("c10-escape")
@@ -870,7 +871,7 @@ func (w *VerifC10World) VerifC10CorruptRev() []byte {
 // lazy reader read out of range or name an object that is not at that offset.
 func VerifHarness_C10_rev_lazy() {
 	n := verifrt.Range(verifrt.Param("NMIN"), verifrt.Param("N"))
-	w := VerifC10Build(VerifC10Entries(n, true))
+	w := VerifC10Build(VerifC10Entries(n, n))
 	rev := w.VerifC10CorruptRev()
 	l, err := NewLazyIndex(verifC10Opener(w.Idx), verifC10Opener(rev), w.Pack)
 	verifrt.Assert(err == nil, "c10-rev-lazy-opens")
@@ -898,7 +899,7 @@ func VerifHarness_C10_rev_lazy() {
 // decoder and the lazy reader reject the file.
 func VerifHarness_C10_fanout() {
 	n := verifrt.Range(0, verifrt.Param("N"))
-	w := VerifC10Build(VerifC10Entries(n, false))
+	w := VerifC10Build(VerifC10Entries(n, 0))
 	slots := []int{0, 1, 0x7e, 0x7f, 0x80, 0xfe}
 	k := slots[verifrt.Range(0, len(slots)-1)]
 	v := verifrt.NondetUint32()
